@@ -853,6 +853,44 @@ def d9_pop_forms(chk: Check) -> None:
                      "path for the parent)".format(got, want))
 
 
+QUOTE_SAMPLES = [("'ghi'", "ghi"), ('"ghi"', "ghi"), ("'\\'ghi'", "\\'ghi"),
+                 ("'ghi\\''", "ghi\\'"), ("''", ""), ("'a", "'a"),
+                 ("plain", "plain")]
+
+
+def d10_unquote(chk: Check) -> None:
+    """A quoted search term loses exactly its two demarcation marks: one
+    character at each end.  (The marks inside -- an escaped quote at either
+    end of the term -- belong to the term.)"""
+    prog = chk.prog
+    chk.rule("C08-D10", "un-demarcating a quoted search term removes "
+             "exactly one mark at each end (folded over sample terms)",
+             floor=7)
+    roles = parser_roles(prog)
+    fi = roles["fi"]
+    idv = _text_var(roles)
+    # the statement: `if <id> and <id>[0] in [quotes]: ...`
+    stmts = [n for n in walk_local(roles["loop"]) if isinstance(n, ast.If)
+             and src(n.test).replace(" ", "").startswith(
+                 "{0}and{0}[0]in".format(idv))]
+    if len(stmts) != 1:
+        raise AnalysisError("un-demarcation statement not found")
+    pe = PEval()
+    for raw, want in QUOTE_SAMPLES:
+        pe.specialise([stmts[0]], {idv: Const(raw)})
+        v = pe.final_env.get(idv)
+        text = "term text {!r}".format(raw)
+        if not isinstance(v, Const):
+            raise AnalysisError(text + " not decided by folding")
+        if v.value == want:
+            chk.ok("C08-D10", fi, stmts[0], text, "-> {!r}".format(v.value))
+        else:
+            chk.fail("C08-D10", fi, stmts[0], text,
+                     "becomes {!r}, expected {!r}: characters of the term "
+                     "itself are removed with the demarcation".format(
+                         v.value, want))
+
+
 def run(chk: Check) -> None:
     d1_automaton(chk)
     d2_stringifier(chk)
@@ -863,3 +901,4 @@ def run(chk: Check) -> None:
     d7_text_and_view(chk)
     d8_term_spaces(chk)
     d9_pop_forms(chk)
+    d10_unquote(chk)
